@@ -1,6 +1,7 @@
 (* Extraction of the executable models. ExtrOcamlBasic only: Z/positive/nat stay inductive. *)
-From MV Require Import Base.Bytes Num.Model.
+From MV Require Import Base.MvBytes Num.NumModel Json.JsonModel Json.JsonSpec.
 Require Extraction.
 Require Import ExtrOcamlBasic.
 Extraction Language OCaml.
-Separate Extraction number0 decimal0 valid_number valid_decimal.
+Separate Extraction number0 decimal0 valid_number valid_decimal
+  json_minify_events events_of.
